@@ -225,6 +225,16 @@ func eGenDB(r *rand.Rand) []database.Command {
 				d := cloneCmd(c)
 				d.Platform = append([]string(nil), ePlatformSets[r.Intn(len(ePlatformSets))]...)
 				cmds = append(cmds, d)
+			case 4: // same command line and description, other keywords / tags (a notebook entry repeating a shipped one)
+				d := cloneCmd(c)
+				d.Keywords = append([]string{eWord(r), eWord(r)}, d.Keywords...)
+				if r.Intn(2) == 0 {
+					d.Tags = append(d.Tags, eWord(r))
+				}
+				if r.Intn(3) == 0 {
+					d.Keywords = nil
+				}
+				cmds = append(cmds, d)
 			case 3: // near-tie: same text, one more word in a long description (scores differ in a late digit)
 				d := cloneCmd(c)
 				d.Description = strings.Repeat(c.Description+" ", 3+r.Intn(8))
